@@ -287,6 +287,56 @@ def _pair_job(pairs):
     return part
 
 
+# ------------------------------------------------------- (b') a raised or lowered minimum
+# "the supported minimum" is the class's public MIN_VERSION_STRING; software built on the class
+# raises it by subclassing or by assigning it.  Where the attribute exists it must be the gate.
+CUSTOM_MINIMA = ["3.0.10", "3.1.0", "3.2.0", "2.9.9", "2.10.0"]
+CUSTOM_BOARDS = ["2.9.8", "2.9.9", "2.10.0", "3.0.1", "3.0.2", "3.0.9", "3.0.10", "3.1.0", "3.1.9",
+                 "3.2.0", "10.0.0"]
+
+
+def check_custom_minimum(minimum, version, how):
+    base = probe_class()
+    if not hasattr(base, "MIN_VERSION_STRING"):
+        return []                           # no such public knob any more: nothing to demand
+    if how == "subclass":
+        obj = type("Raised", (base,), {"MIN_VERSION_STRING": minimum})()
+    elif how == "class":
+        obj = base()
+    else:
+        obj = base()
+        obj.MIN_VERSION_STRING = minimum
+    ports = []
+
+    def factory(_name):
+        ports.append(FakePort(EBB3Board(version=version, nickname="Axi")))
+        return ports[-1]
+
+    key = lambda text: tuple(map(int, text.split(".")))     # pylint: disable=unnecessary-lambda-assignment
+    want = key(version) >= key(minimum)
+    desc = f"MIN_VERSION_STRING = {minimum!r} ({how}), board firmware {version}: connect()"
+    saved = base.MIN_VERSION_STRING
+    try:
+        if how == "class":
+            base.MIN_VERSION_STRING = minimum
+        with connect_env(factory):
+            ret, exc = call(obj, "connect", ())
+    finally:
+        if how == "class":
+            base.MIN_VERSION_STRING = saved
+    if exc is not None:
+        return [f"{desc} raised {type(exc).__name__}: {exc}"]
+    sent = [w for p in ports for w in p.write_attempts]
+    if want and (ret is not True or obj.err is not None):
+        return [f"{desc} = {ret!r}, err = {obj.err!r}; the board is at least the minimum"]
+    if not want:
+        beyond = [w for w in sent if w.strip().lower() not in (b"v",)]
+        if ret is not False or obj.err is None or beyond:
+            return [f"{desc} = {ret!r}, err = {obj.err!r}, sent {sent!r}; the board is older than "
+                    f"the minimum: False, an error and nothing beyond the version probe"]
+    return []
+
+
 # ----------------------------------------------------------------------------- (c) gates
 
 GATES = [("servo_timeout", (2, 6, 0), b"SR,"), ("queryVoltage", (2, 2, 3), b"QC"),
@@ -340,6 +390,14 @@ def run(ctx):
     jobs += [("pair", chunk) for chunk in core.split(
         list(itertools.permutations(PAIR_VERSIONS, 2)), 8)]
     part = core.fan_out(ctx, _dispatch, jobs)
+    for minimum, version, how in itertools.product(CUSTOM_MINIMA, CUSTOM_BOARDS,
+                                                   ("subclass", "instance", "class")):
+        for msg in check_custom_minimum(minimum, version, how):
+            part.violation(f"custom_min:{minimum}:{version}:{how}", msg,
+                           {"kind": "custom_min", "minimum": minimum, "version": version,
+                            "how": how})
+        part.count("custom_minimum_cases")
+        part.count("gate_cases")
     for feature, _gate, _cmd in GATES:
         for version in GATE_VERSIONS:
             for msg in check_gate(feature, version):
@@ -362,7 +420,9 @@ def run(ctx):
                 "asked a, b, a (answers are per object); (b) connect() histories (connect+6 requests; connect,connect; "
                 "connect,disconnect,connect) x given_name {None, matching, missing} x every "
                 f"environment vector with <= {bound} deviations (open failure, 9 banner kinds per "
-                "probe, late/silent/error replies, raising reads and writes); (c) 5 legacy gates "
+                "probe, late/silent/error replies, raising reads and writes), and the gate with "
+                "MIN_VERSION_STRING raised or lowered (5 minima x 11 boards x subclass / "
+                "instance / class attribute); (c) 5 legacy gates "
                 "x 12 board versions; non-trivial = handshake executions with a deviation and "
                 "version pairs whose string order differs from numeric order",
         "samples": core.rotate(part.samples, ctx.seed, 4),
@@ -371,6 +431,7 @@ def run(ctx):
         "side_by_side_histories": cnt.get("pair_histories", 0),
         "order_pairs_where_string_order_differs": cnt.get("nontrivial_order", 0),
         "gate_cases": cnt.get("gate_cases", 0),
+        "custom_minimum_cases": cnt.get("custom_minimum_cases", 0),
         "accepted_supported_board_executions": cnt.get("accepted_supported_board", 0),
         "distinct_outcomes": part.size("outcomes"),
         "banner_alphabet": [b[0] for b in BANNERS],
@@ -408,6 +469,8 @@ def replay(case):
         return [] if got == (want, want) else [f"{ver} >= {thr}: expected {want}, got {got}"]
     if case["kind"] == "pair":
         return [m for _t, m in check_pair(case["a"], case["b"], case["thresholds"])]
+    if case["kind"] == "custom_min":
+        return check_custom_minimum(case["minimum"], case["version"], case["how"])
     if case["kind"] == "gate":
         return check_gate(case["feature"], case["version"])
     script = [tuple(s) if isinstance(s, list) else s for s in case["script"]]
